@@ -85,11 +85,19 @@ LocalRes(U, dr, d, u) ==
 RemoteDocs(U, dr, d, u) ==
   {e \in DocIds(U) : e # d /\ (U.docs[e].uri = u \/ BaseAt(dr, U.docs[e], <<>>) = u)}
 
+\* 3. a resource EMBEDDED in the root document, referred to from a Loader document by its URI: the root document is
+\*    known from the start, and a URI identifies the resource wherever the reference stands.  (The package does not
+\*    look there: it asks the Loader - known finding KF-crossdoc-C03, see HasCrossEmb below.)
+RootEmbedded(U, dr, d, u) ==
+  IF d = 1 THEN {} ELSE {q \in ResRoots(dr, Doc(U, 1)) : q # <<>> /\ BaseAt(dr, Doc(U, 1), q) = u}
+
 FindResource(U, dr, d, u) ==
   LET loc == LocalRes(U, dr, d, u)
       rem == RemoteDocs(U, dr, d, u)
+      emb == RootEmbedded(U, dr, d, u)
   IN IF loc # {} THEN Addr(d, CHOOSE q \in loc : TRUE)
      ELSE IF rem # {} THEN Addr(CHOOSE e \in rem : TRUE, <<>>)
+     ELSE IF emb # {} THEN Addr(1, CHOOSE q \in emb : TRUE)
      ELSE NoTarget
 
 
@@ -193,6 +201,12 @@ RefsResolvable(U, dr, d) ==
   \A pr \in RefsOf(U, d) : Resolvable(BaseAt(dr, Doc(U, d), pr[1]), pr[2].u)
 DomainOK(U, dr) ==
   \A d \in DocIds(U) : IdsOK(dr, Doc(U, d)) /\ NoDupRes(dr, Doc(U, d)) /\ RefsResolvable(U, dr, d) /\ ~DupAnchors(U, dr, d)
+
+\* the universe contains a reference (in a needed Loader document) that only clause 3 resolves
+HasCrossEmb(U, dr) ==
+  \E d \in NeededDocs(U, dr) \ {1} : \E pr \in RefsOf(U, d) :
+     LET u == RefURI(U, dr, Addr(d, pr[1]), pr[2])
+     IN LocalRes(U, dr, d, u) = {} /\ RemoteDocs(U, dr, d, u) = {} /\ RootEmbedded(U, dr, d, u) # {}
 
 ResolveOK(U, dr) ==
   \A d \in NeededDocs(U, dr) :
